@@ -15,6 +15,7 @@ struct SockClientThread : public Thread
 	SockClientThread(SocketServer* svr, const Socket& cli):
 		_server(svr), _client(cli)
 	{
+		_deleteOnExit = true; // not "delete this" in run(): Thread::begin still writes to the object after run()
 		start();
 	}
 	void run()
@@ -26,7 +27,6 @@ struct SockClientThread : public Thread
 		ASL_VERIF_HOOK(33, _server, 0);
 		--_server->_numClients;
 		ASL_VERIF_HOOK(41, this, 0);
-		delete this;
 	}
 };
 
